@@ -57,7 +57,7 @@ class LocalCtx(object):
 
 def first_failing_steps(ctx, scn, steps, pid):
     """-> {check name: index of the first step at which the check fails}"""
-    lines = ["mon-reset %d %d %d %d" % tuple(scn["cfg"])]
+    lines = ["mon-reset " + S.cfg_words(scn["cfg"])]
     marks = []
     for s in steps:
         lines.append("mon-ev " + s["ev"])
@@ -246,6 +246,9 @@ PREFIXES = {
     "hb-stale": ["start", "coordDone ok", "metaDone ok", "joinDone ok 1 5 0 0", "syncDone ok 1:0,1", "advance 5", "fire 0",
                  "consumerErr 0 illegalGeneration", "advance 1/8", "fire 2", "coordDone ok", "metaDone ok", "joinDone ok 1 6 0 0",
                  "syncDone ok 1:0"],
+    # ... and a heartbeat still unanswered when the JoinGroup of the rejoin is out (the join reply abandons it)
+    "hb-late-join": ["start", "coordDone ok", "metaDone ok", "joinDone ok 1 5 0 0", "syncDone ok 1:0,1", "advance 5", "fire 0",
+                     "consumerErr 0 unknownMemberId", "advance 1/8", "fire 2", "coordDone ok", "metaDone ok"],
     "stop-drain": ["start", "coordDone ok", "metaDone ok", "joinDone ok 1 5 0 0", "syncDone ok 1:0,1", "advance 5", "fire 0",
                    "hbDone err:rebalanceInProgress", "stop"],
 }
@@ -266,6 +269,9 @@ def actions(world, faults_only=False):
         if fam == "join":
             m = int(world.join_member[1:]) if world.join_member else 1
             acts += [["joinDone ok %d %d 0 0" % (m, 6 + len(world.consumers))], ["joinDone ok %d %d 1 2" % (m, 7 + len(world.consumers))]]
+            if world.join_member:
+                # a coordinator that renames the member (not Kafka's habit, but the member must adopt what the reply says)
+                acts += [["joinDone ok %d %d 0 0" % (m + 1, 8 + len(world.consumers))]]
         elif fam == "sync":
             acts += [["syncDone ok 1:0;2:1"]]
         elif fam == "coord":
@@ -458,7 +464,7 @@ def run(ctx, res, pid):
         if not thorough:
             for b in range(ctx.scale(30, 0)):
                 handle(ctx, res, pid, S.check_scenarios(ctx, random_batch(base + b, 100, [10, 20, 40, 60, 90], pid), pid), seen)
-            run_exhaustive(ctx, res, pid, seen, 3, False, ["fresh", "stable", "stable-hb", "prepare", "stop-drain", "stop-first", "hb-stale"], None)
+            run_exhaustive(ctx, res, pid, seen, 3, False, ["fresh", "stable", "stable-hb", "prepare", "stop-drain", "stop-first", "hb-stale", "hb-late-join"], None)
             run_exhaustive(ctx, res, pid, seen, 4, True, ["fresh"], None)
             with multiprocessing.Pool(min(8, os.cpu_count() or 2)) as pool:
                 run_fullstack_stage(ctx, res, pid, [base % 100000 + i for i in range(12)], pool, seen)
@@ -467,7 +473,7 @@ def run(ctx, res, pid):
                 jobs = [(base + b, 250, [10, 20, 40, 60, 90, 150], pid) for b in range(400)]
                 for results in pool.imap_unordered(_worker_random, jobs, chunksize=4):
                     handle(ctx, res, pid, results, seen)
-                run_exhaustive(ctx, res, pid, seen, 5, False, ["fresh", "stable", "stable-hb", "prepare", "stop-drain", "stop-first", "hb-stale"], pool)
+                run_exhaustive(ctx, res, pid, seen, 5, False, ["fresh", "stable", "stable-hb", "prepare", "stop-drain", "stop-first", "hb-stale", "hb-late-join"], pool)
                 run_exhaustive(ctx, res, pid, seen, 6, True, ["fresh", "stable"], pool)
                 run_fullstack_stage(ctx, res, pid, [base % 100000 + i for i in range(300)], pool, seen)
         res.extra["error_kinds_hit"] = sorted(k for k in res.hist if k.startswith("err@"))
@@ -503,7 +509,7 @@ def search(ctx, res, broken, pid):
         # 2. fresh random scenarios and the bounded-exhaustive trees
         for b in range(ctx.scale(40, 400)):
             handle(ctx, r2, pid, S.check_scenarios(ctx, random_batch(base + 1000 + b, 100, [10, 20, 40, 60, 90], pid), pid), seen)
-        run_exhaustive(ctx, r2, pid, seen, ctx.scale(4, 5), False, ["fresh", "stable", "stable-hb", "prepare", "stop-drain", "stop-first", "hb-stale"], None)
+        run_exhaustive(ctx, r2, pid, seen, ctx.scale(4, 5), False, ["fresh", "stable", "stable-hb", "prepare", "stop-drain", "stop-first", "hb-stale", "hb-late-join"], None)
         with multiprocessing.Pool(min(8, os.cpu_count() or 2)) as pool:
             run_fullstack_stage(ctx, r2, pid, [base % 100000 + 1000 + i for i in range(ctx.scale(24, 200))], pool, seen)
         known = core.load_known_findings()
